@@ -132,6 +132,14 @@ def decOp (s : String) : Option (Op × List String) :=
     pure (.setChar x y ch, [])
   | ["trimseqs", n, fs] => (parseInt? n).map fun v => (.trimSeqs v (decBool fs), [])
   | ["autoalpha"] => some (.autoAlpha, [])
+  | ["revcomp"] => some (.revcomp, [])
+  | ["compress"] => some (.compress, [])
+  | ["rmgapsites", f, e] => do
+    let (x, y) ← frac f
+    pure (.rmGapSites x y (decBool e), [])
+  | ["replacechar", n, i, c] => do
+    let x ← parseInt? i; let ch ← (bytesOfString c).head?
+    pure (.replaceChar (pctDec n) x ch, [])
   | _ => none
 
 def initModel (kind : String) (alpha : Nat) (rows : List (String × Seq)) : Bag × Bool :=
